@@ -73,6 +73,10 @@ CHECKS = {
    text="For each program the real pipeline runs under the default and under each representation/strategy setting (conditions to arithmetic, categorical expansion, forced cyclic solver, declared types with and without inference); whenever a goal succeeds under two settings the closed forms are compared at every n <= N by one z3 query over all parameter values (and against the reference semantics on disagreement). Numeric-root options are compared numerically for the exactness flag and an envelope; the CLI flag-to-setting mapping is enumerated.",
    ref="DESIGN.md 3/C17", tech="pairwise z3 equivalence of closed forms produced under different settings by the real pipeline",
    note="Trusted: z3; vlib/sem.py when a disagreement is attributed. Bounded: n <= 3/5. Refusals under a setting are permitted by the property and counted. Results containing the constant of a Bernoulli abstraction are outside (not a free parameter)."),
+ "C19": dict(cat="translation_validation",
+   text="Arithmetic: for texts enumerated from a bounded operator grammar the polynomial the real parser produces is compared with the value Python's own grammar assigns to the same text by one z3 query over all variable values. Spellings: every program of the corpora and of the generated family is printed in nine spellings (whitespace/comments/CRLF/tabs, parentheses, decimals, explicit last probability, temporaries instead of simultaneous assignment, nested else-if); the real parser's result is compared with the denoted program by one-iteration and initial-block test-function expectations for all pre-states and parameters (and closed forms at n <= 3 in the thorough tier). Ill-formed texts and invalid probability vectors must be rejected (enumerated).",
+   ref="DESIGN.md 3/C19", tech="z3 equivalence of parsed polynomial vs Python-precedence value; one-iteration law equivalence (C02 machinery) between the parsed spelling and the denoted program",
+   note="Trusted: Python's ast for precedence, the harness's own reader/printer (it must read all its own spellings as one program, harness error otherwise), vlib/sem.py, z3. The text itself is not symbolic: texts are enumerated from the rewrite system and expression grammar."),
 }
 NA_REASON = "check not built yet in this session (see DESIGN.md section 3 for the planned solver-based check)"
 
